@@ -3,7 +3,7 @@ import ast
 import builtins
 
 from ..absint import Interp, Obj, TOP, ClassRef
-from ..absnodes import Name, std_hooks
+from ..absnodes import Name, public_value, std_hooks
 from ..astutil import calls, kwarg, local_defs
 from ..facts import Facts, fact_texts
 from ..model import AnalysisError, Model, src, walk_own
@@ -273,7 +273,7 @@ def pins(model, rep):
         scope = 'module' if o.cls == 'Module' else (scope_label(o) or o.cls)
         for b in bs:
             if isinstance(b, Obj):
-                seen[(scope, b.attrs.get('_name', b.attrs.get('name')))] = b
+                seen[(scope, public_value(model, b, 'name'))] = b
     where = 'src/python_minifier/rename/bind_names.py'
     for (scope, name), (want_pin, want_reserved, why) in sorted(PIN_EXPECT.items()):
         b = seen.get((scope, name))
@@ -281,8 +281,8 @@ def pins(model, rep):
         if b is None:
             rep.violation('C04.PIN', where, '%s in %s' % (name, scope), 'no binding is created for %s in the %s scope (found %s)' % (name, scope, sorted(n for (s_, n) in seen if s_ == scope)), key=key)
             continue
-        pinned = b.attrs.get('_allow_rename') is False
-        reserved = b.attrs.get('_reserved')
+        pinned = public_value(model, b, 'allow_rename') is False
+        reserved = public_value(model, b, 'reserved')
         ok = pinned == want_pin and (want_reserved is None or pinned or reserved == want_reserved)
         rep.check(ok, 'C04.PIN', where, '%s in the %s scope -> %s%s' % (name, scope, 'pinned' if pinned else 'renamable', ', reserved %r' % reserved if reserved else ''),
                   'as required' + (' (%s)' % why if why else ''),
@@ -333,7 +333,7 @@ def arg_probe(model, rep):
                 I.call_function(R_ + 'resolve_names.resolve_names', [mod])
                 fn = [o for o in walk(mod) if o.cls in ('FunctionDef', 'AsyncFunctionDef') and o.attrs.get('name') == 'f'][0]
                 for b in list(fn.attrs.get('bindings') or []):
-                    nm = b.attrs.get('_name')
+                    nm = public_value(model, b, 'name') if isinstance(b, Obj) else None
                     if isinstance(b, Obj) and nm in new_names:
                         I.call_method(b.qual or R_ + 'binding.NameBinding', 'rename', b, [new_names[nm]])
                 return fn
@@ -470,6 +470,7 @@ def rename_enum(model, rep):
         return o
     n_cells = 0
     bad_ext, bad_kw, bad_new = [], [], []
+    model.require_attrs(B + '.Binding', '_name', '_references', '_allow_rename', '_reserved')     # the bindings below are built by hand
     for bq in (B + '.NameBinding', B + '.BuiltinBinding'):
         for c in sorted(id_by_class):
             variants = {'Name': ['Load', 'Store', 'Del', 'Param'], 'alias': ['plain', 'as']}.get(c, [''])
